@@ -6,6 +6,7 @@ signs / newlines / code fragments calling a canary - and must give exactly the m
 from __future__ import annotations
 
 import builtins
+import enum
 import json
 
 from ..core import Ctx
@@ -23,7 +24,20 @@ def _canary(*a, **k):
     return "canary"
 
 
+class KeyEnum(str, enum.Enum):
+    """keys that are str subclasses with a repr of their own (members of a str-mixin Enum are a common way to name keys)"""
+    K1 = "key-one"
+    K2 = "key two"
+    N = "nest.ed"
+
+
+class IdxInt(int):
+    def __repr__(self):
+        return f"<index {int(self)}>"
+
+
 HOSTILE_KEYS = [
+    {"k1": KeyEnum.K1, "k2": KeyEnum.K2, "n": KeyEnum.N, "u1": "unk1", "u2": "unk2"},
     {"k1": "it's$$cur", "k2": 'say "hi"', "n": "back\\slash$", "u1": "un{k}1", "u2": "$unk2"},
     {"k1": "new\nline", "k2": '"""$expr', "n": "{0}${os}", "u1": "u'1", "u2": "${u2}"},
     {"k1": "' + CANARY() + '", "k2": "{CANARY()}", "n": "__import__('builtins').CANARY()", "u1": "\\'); CANARY(); ('", "u2": "%s"},
